@@ -496,7 +496,7 @@ class RemDupValues(RemDup):
 # ----------------------------------------------------------------------------
 
 NATIVE_KINDS = ("i8", "f8", "S", "U")          # kinds a python list / python scalar turns into
-NUM_MIXES = [("i8", "f8"), ("f8", "i8"), ("i4", "i8"), ("i8", "i4"), ("u1", "i8"), ("i8", "u1"), ("u8", "i8"), ("i8", "u8"),
+NUM_MIXES = [("i8", "f8"), ("f8", "i8"), ("u8", "f8"), ("f8", "u8"), ("i4", "i8"), ("i8", "i4"), ("u1", "i8"), ("i8", "u1"), ("u8", "i8"), ("i8", "u8"),
              ("f4", "f8"), ("f8", "f4"), ("i2", "f4"), ("u4", "i2"), ("i1", "u8"), ("u2", "f8")]
 TWO53 = 2 ** 53
 
@@ -513,7 +513,17 @@ def mkey(kind, v, as_float):
     return fkey(float.fromhex(v))
 
 
-def gen_mixed_value(r, kind):
+def gen_mixed_value(r, kind, big=False):
+    """big (int/float pairs only): integers beyond 2^53 in clusters that collide after the promotion to float64, and the
+    doubles they round to.  In an int/float pair `equal` can only mean numpy's == of the pair, i.e. equality of the
+    promoted binary64 values; the harness embeds every integer of such a pair through float(int) (round to nearest even)"""
+    if big and r.random() < 0.7:
+        b = r.choice([2**53, 2**54, 2**60, 2**62, 2**63 - 4096])
+        v = b + r.randrange(-3, 14)
+        if kind in INT_KINDS:
+            lo, hi = INT_KINDS[kind]
+            return min(hi, max(lo, -v if (lo < 0 and r.random() < 0.2) else v))
+        return float(v).hex()
     if kind in INT_KINDS:
         lo, hi = INT_KINDS[kind]
         lo, hi = max(lo, -TWO53), min(hi, TWO53)
@@ -539,10 +549,11 @@ def fits(kind, k):
 def gen_mixed_numeric_case(r):
     k1, k2 = r.choice(NUM_MIXES)
     af = mixed_float(k1, k2)
+    big = af and ("8" in k1 and "8" in k2) and (k1 in INT_KINDS or k2 in INT_KINDS) and r.random() < 0.45
     n1, n2 = r.randrange(1, 8), r.randrange(1, 9)
     pool1 = {}
     for _ in range(60):
-        v = gen_mixed_value(r, k1)
+        v = gen_mixed_value(r, k1, big)
         pool1.setdefault(mkey(k1, v, af), v)
         if len(pool1) >= n1:
             break
@@ -565,13 +576,14 @@ def gen_mixed_numeric_case(r):
                 if y == x:
                     a2.append(float(y).hex())
                     continue
-        a2.append(gen_mixed_value(r, k2))
+        a2.append(gen_mixed_value(r, k2, big))
     presorted = r.choice([False, False, True, None])
     if presorted:
         a1.sort(key=lambda v: mkey(k1, v, af))
     return {"kind1": k1, "kind2": k2, "a1": a1, "a2": a2, "presorted": presorted, "form1": "array", "form2": "array",
-            "multi": r.random() < 0.3, "family": "mixed-%s" % ("int-float" if af and not (k1 in FLOAT_KINDS and k2 in FLOAT_KINDS)
-                                                                  else ("float-widths" if af else "int-widths"))}
+            "multi": r.random() < 0.3, "family": "mixed-%s%s" % ("int-float" if af and not (k1 in FLOAT_KINDS and k2 in FLOAT_KINDS)
+                                                                    else ("float-widths" if af else "int-widths"),
+                                                                    "/beyond-2p53" if big else "")}
 
 
 ASCII = [32, 48, 65, 97, 98, 122, 126]
@@ -624,6 +636,77 @@ def gen_empty_case(r):
             "multi": r.random() < 0.4, "family": "empty-" + which + ("/string" if is_str(k) else "/number")}
 
 
+KF_CLASS = "C06.kf_mixed_sign_above_2p53"
+SIGNED = ("i1", "i2", "i4", "i8")
+BIG = [2**53, 2**54, 2**55 + 2**54, 2**60, 2**62, 2**63 - 2048, 2**63, 2**63 + 2**62, 2**64 - 4096]
+MIXED_VALUES = set()          # every integer that went through the promoted model in this run (round53 monitor)
+
+
+def promoted(k1, k2):
+    """numpy has no common integer type: np.searchsorted promotes the pair to float64"""
+    return (k1 == "u8" and k2 in SIGNED) or (k2 == "u8" and k1 in SIGNED)
+
+
+def py_kf(c):
+    """Spec.kf_mixed_sign_above_2p53 on a case (python's int -> float is the same round-to-nearest-even; the run
+    checks round53 against it on every value used: obligation `round53 agrees ...`)"""
+    return promoted(c["kind1"], c["kind2"]) and any(int(float(int(v))) != int(v) for v in c["a1"] + c["a2"])
+
+
+def gen_sign64_value(r, kind, mode):
+    lo, hi = INT_KINDS[kind]
+    if mode == "exact-small" or hi < 2**53:
+        c = r.choice(["small", "edge"])
+        v = r.randrange(-6, 12) if c == "small" else r.choice([2**53, 2**53 - 1, -(2**53), 2**31, 2**32 + 1, 127, -128, 255]) + r.randrange(-1, 1)
+    elif mode == "exact-big":           # beyond 2^53 but a multiple of the binary64 spacing there
+        b = r.choice(BIG)
+        v = b + (1 << (b.bit_length() - 53)) * r.randrange(0, 6)
+        if r.random() < 0.3:
+            v = -v
+    else:                               # clusters around a big base: neighbours that round to the same double
+        b = r.choice(BIG)
+        v = b + r.randrange(-3, 14) if r.random() < 0.8 else r.randrange(-5, 9)
+        if kind == "i8" and r.random() < 0.2:
+            v = -v
+    return min(hi, max(lo, v))
+
+
+def gen_mixed_sign64_case(r):
+    ks = r.choice(["i8", "i8", "i8", "i8", "i4", "i1"])
+    k1, k2 = ("u8", ks) if r.random() < 0.55 else (ks, "u8")
+    mode = r.choice(["cluster", "cluster", "cluster", "exact-small", "exact-big"])
+    n1, n2 = r.randrange(1, 8), r.randrange(1, 9)
+    pool = {}
+    for _ in range(80):
+        v = gen_sign64_value(r, k1, mode)
+        pool.setdefault(v, v)
+        if len(pool) >= n1:
+            break
+    a1 = list(pool)
+    r.shuffle(a1)
+    a2 = []
+    for _ in range(n2):
+        c = r.random()
+        if c < 0.5:
+            v = r.choice(a1)                                   # the same value in the other kind
+        elif c < 0.75 and mode == "cluster":
+            v = r.choice(a1) + r.choice([-2, -1, 1, 2])        # a neighbour that may round to the same double
+        else:
+            v = gen_sign64_value(r, k2, mode)
+        lo, hi = INT_KINDS[k2]
+        a2.append(min(hi, max(lo, v)))
+    presorted = r.choice([False, False, True, None])
+    if presorted:
+        a1.sort()
+    elif r.random() < 0.2:
+        a1.sort(reverse=r.random() < 0.5)
+    c = {"kind1": k1, "kind2": k2, "a1": a1, "a2": a2, "presorted": presorted, "form1": "array", "form2": "array",
+         "multi": r.random() < 0.3}
+    c["family"] = "mixed-sign-64/%s%s%s" % ("in-class" if py_kf(c) else "outside-class", "/presorted" if presorted else "",
+                                            "/multi" if c["multi"] else "")
+    return c
+
+
 def spell(kind, vals, form):
     import numpy as np
     if form == "array":
@@ -666,6 +749,18 @@ class MatchForms(Entry):
                 {"kind1": "i8", "kind2": "i8", "a1": [3, 1, 2], "a2": [2], "form2": "pyscalar", "presorted": None, "multi": True, "family": "hand-forms"},
                 {"kind1": "f8", "kind2": "f8", "a1": [h(1.5)], "a2": [h(1.5)], "form1": "zerod", "form2": "zerod", "presorted": True, "family": "hand-forms"},
             ]
+            B = 2 ** 53
+            hand += [
+                {"kind1": "u8", "kind2": "i8", "a1": [B + 2, 5, B], "a2": [B, -1, B + 2, 5, B + 4], "family": "mixed-sign-64/outside-class"},
+                {"kind1": "i8", "kind2": "u8", "a1": [-B, 5, B], "a2": [B, 2**63, 5], "presorted": True, "family": "mixed-sign-64/outside-class/presorted"},
+                {"kind1": "u8", "kind2": "i8", "a1": [2**64 - 2048, 2**63, 7], "a2": [7, 2**63 - 1024, -2**63], "multi": True, "family": "mixed-sign-64/outside-class/multi"},
+                {"kind1": "u8", "kind2": "i1", "a1": [2**64 - 1, 7, 2**63 + 1], "a2": [7, -1, 8], "family": "mixed-sign-64/in-class"},
+                {"kind1": "u8", "kind2": "i8", "a1": [B, 3], "a2": [B + 1], "family": "mixed-sign-64/in-class"},
+                # int against float beyond 2^53: numpy's == of the pair is equality of the promoted doubles
+                {"kind1": "i8", "kind2": "f8", "a1": [B + 1, 7], "a2": [h(2.0**53), h(7.0), h(2.0**53 + 2)], "family": "hand-mixed/beyond-2p53"},
+                {"kind1": "f8", "kind2": "i8", "a1": [h(2.0**53), h(7.0)], "a2": [B + 1, 7, B, B + 2], "family": "hand-mixed/beyond-2p53"},
+                {"kind1": "u8", "kind2": "f8", "a1": [2**64 - 1, 2**63 + 1], "a2": [h(2.0**64), h(2.0**63), h(1.0)], "family": "hand-mixed/beyond-2p53"},
+            ]
             for c in hand:
                 cs.append(dict(base, **c))
         n = ctx.n(90, 900) if round == 0 else ctx.n(60, 300)
@@ -677,6 +772,8 @@ class MatchForms(Entry):
             cs.append(gen_forms_case(r))
         for _ in range(n // 3):
             cs.append(gen_empty_case(r))
+        for _ in range(n + n // 2):
+            cs.append(gen_mixed_sign64_case(r))
         return cs
 
     def impl(self, c):
@@ -699,6 +796,9 @@ class MatchForms(Entry):
             return ("vt", "[" + "; ".join(tag(k1, v) for v in c["a1"]) + "]", "[" + "; ".join(tag(k2, v) for v in c["a2"]) + "]")
         if k1 == k2:
             return "vz", cvals(k1, c["a1"]), cvals(k2, c["a2"])
+        if promoted(k1, k2):
+            MIXED_VALUES.update(int(v) for v in c["a1"] + c["a2"])
+            return "vm", clist([int(v) for v in c["a1"]], cz), clist([int(v) for v in c["a2"]], cz)
         af = mixed_float(k1, k2)
         return ("vz", clist([mkey(k1, v, af) for v in c["a1"]], cz), clist([mkey(k2, v, af) for v in c["a2"]], cz))
 
@@ -718,8 +818,17 @@ class MatchForms(Entry):
             return len(c["a2"]) >= 2 and any(tuple(v) in set(map(tuple, c["a1"])) for v in c["a2"])   # equal spelling, other kind
         return 0 < len(out[1][1]) < len(c["a2"]) or (len(c["a2"]) == 1 and len(c["a1"]) >= 1)
 
+    def classify(self, c, out, verdict):
+        # the known class only when the implementation does exactly what the promoted model says (verdict 2: model =
+        # implementation, full-statement checker rejects) on a pair that satisfies the class predicate
+        if verdict == 2 and py_kf(c):
+            return KF_CLASS
+        return None
+
     def show(self, c):
         px, t1, t2 = self._coq_arrays(c)
+        if px == "vm":
+            return "show_match_mixed %s %s %s %s" % (cbool(bool(c["presorted"])), cbool(c["multi"]), t1, t2)
         o = {"vs": "lex_ltb lex_eqb true", "vz": "zltb zeqb false", "vt": "tag_ltb tag_eqb true"}[px]
         return "show_match %s %s %s %s %s" % (o, cbool(bool(c["presorted"])), cbool(c["multi"]), t1, t2)
 
@@ -1025,3 +1134,19 @@ def run(ctx, replay=None):
         ctx.obligation("sweep_dedup_model 4 3 5 = true (4-letter alphabet, length <= 5)", vals[5] == "0")
         ctx.exhaustive = True
     differential(ctx, PRE, ENTRIES, replay)
+    # contract monitor of the Gallina rounding: round53 = the platform's integer -> binary64 conversion on every value that
+    # went through the promoted model in this run
+    if MIXED_VALUES:
+        vals = sorted(MIXED_VALUES)
+        pairs = "[" + "; ".join("(%s, %s)" % (cz(v), cz(int(float(v)))) for v in vals) + "]"
+        try:
+            ok = core.coq_eval(ctx.work + "/round53", PRE, ["if round53_agrees %s then 0 else 1" % pairs], tag="round53")[0] == "0"
+        except core.CoqEvalError as e:
+            ok = False
+            ctx.notes.append(str(e)[-300:])
+        ctx.obligation("round53 agrees with the platform's int -> binary64 conversion on the %d integers of this run's mixed-signedness "
+                       "pairs (contract monitor)" % len(vals), ok)
+        if not ok:
+            ctx.violation("contract monitor: Model.round53 differs from the platform's integer -> binary64 rounding",
+                          {"kind": "contract-monitor", "no_longer_checks": "model of the float64 promotion (C06_match_outside_known, "
+                                                                           "C06_match_mixed_refuted are about round53)"}, found_input=False)
